@@ -819,6 +819,34 @@ def _angles(ctx, only=None):
             except Exception as e:
                 ctx.violate('angles:history-exception', 'second conversion of a refilled array raises %r' % (e,),
                             {'stream': 'angles', 'lat': lat, 'p': [list(q) for q in a[:3].tolist()], 'history': 'refill'})
+        # memory layout: the same (N, 2) / (N, 3) values as a column-major array, the transpose of a stacked (2, N) array,
+        # a strided view of a wider array and a reversed view must convert like the C-contiguous array (seeded change C18-21)
+        if len(p) >= 2:
+            m = min(len(p), 60)
+            wide = np.zeros((m, 5)); wide[:, 1] = a[:m, 0]; wide[:, 3] = a[:m, 1]
+            widex = np.zeros((m, 7)); widex[:, 0::3] = x[:m]
+            lays = [('fortran', np.asfortranarray(a[:m]), np.asfortranarray(x[:m]), slice(None)),
+                    ('stack-T', np.array([a[:m, 0], a[:m, 1]]).T, np.array([x[:m, 0], x[:m, 1], x[:m, 2]]).T, slice(None)),
+                    ('strided', wide[:, 1::2], widex[:, 0::3], slice(None)),
+                    ('reversed', a[:m][::-1], x[:m][::-1], slice(None, None, -1))]
+            for nm, av, xv, back_sl in lays:
+                try:
+                    xs = np.asarray(angles_to_x(av, latitude=lat))
+                    bs = np.asarray(x_to_angles(xv, latitude=lat))
+                except Exception as e:
+                    ctx.violate('angles:layout-exception:' + nm, 'a %s array raises %r' % (nm, e),
+                                {'stream': 'angles', 'lat': lat, 'p': [list(q) for q in a[:2].tolist()], 'layout': nm})
+                    continue
+                ctx.count('angles:layout:' + nm)
+                # numpy evaluates sin / cos / arccos with other loops on strided than on contiguous data (last-bit differences):
+                # the comparison is at 1e-9 degrees / 1e-12, a mis-paired coordinate is off by degrees
+                def _near(u, v, tol):
+                    return u.shape == v.shape and bool(np.all((np.abs(u - v) <= tol) | (np.isnan(u) & np.isnan(v))))
+                if not (_near(xs, x[:m][back_sl], 1e-12) and _near(bs, back[:m][back_sl], 1e-9)):
+                    ctx.violate('angles:layout-dependence:' + nm,
+                                'angles_to_x / x_to_angles(latitude=%s) of a %s array differ from the conversion of the same values '
+                                'in a C-contiguous array' % (lat, nm),
+                                {'stream': 'angles', 'lat': lat, 'p': [list(q) for q in a[:2].tolist()], 'layout': nm})
         # the answer for one point must not depend on how many points are passed in one call (1..5 rows, 1-D single point)
         for nb in (1, 2, 3, 4, 5):
             for start in range(0, min(len(p), 40), nb):
